@@ -239,7 +239,7 @@ def variant_case(vname, fn, pids):
         shutil.rmtree(repo, ignore_errors=True)
 
 
-ALLP = ["C01", "C02", "C03", "C04", "C05", "C07", "C08", "C09", "C10", "C11", "C12", "C13", "C14", "C15", "C16", "C17", "C18"]
+ALLP = ["C01", "C02", "C03", "C04", "C05", "C06", "C07", "C08", "C09", "C10", "C11", "C12", "C13", "C14", "C15", "C16", "C17", "C18"]
 
 
 def corpus_case(name):
